@@ -315,12 +315,15 @@ def applyWith (var : Variant) (table : TableK) : Sw â†’ List Action â†’ Frame â†
 def lookup (t : List Rule) (inPort : Nat) : Option (List Action) :=
   (t.find? fun r => match r.inPort with | none => true | some p => p == inPort).map (Â·.acts)
 
+/-- `port is not None and port.config & OFPPC_NO_PACKET_IN` -/
+def noPin (sw : Sw) (inPort : Nat) : Bool :=
+  match findPort sw.ports inPort with
+  | some p => has p.config PC_NO_PACKET_IN
+  | none => false
+
 /-- the table-miss branch of `_lookup_packet` (switch.py:531-540) -/
 def missOuts (sw : Sw) (f : Frame) (inPort : Nat) (packetData : Option Bytes) : M (List Out) :=
-  let noPin := match findPort sw.ports inPort with
-    | some p => has p.config PC_NO_PACKET_IN
-    | none => false
-  if noPin then .ok [] else
+  if noPin sw inPort then .ok [] else
   match packetData with
   | some d => .ok [packetInOf inPort R_NO_MATCH d (some sw.missLen)]
   | none =>
